@@ -1,5 +1,5 @@
 (** C07 — Compact bigram connectors compute the defining feature-pair sum. *)
-From Vib Require Import Model.Base Model.Scorer Model.Dual Proofs.ScorerProofs Proofs.RawSpecProofs Proofs.DualProofs.
+From Vib Require Import Model.Base Model.Scorer Model.Dual Proofs.ScorerProofs Proofs.RawSpecProofs Proofs.DualProofs Model.Simd Proofs.SimdProofs.
 Local Open Scope N_scope.
 
 (** The XOR double array ([bases], [checks]/[costs]) built by [ScorerBuilder::build] answers
@@ -64,9 +64,37 @@ Example c07_dual_example :
   end.
 Proof. vm_compute. auto. Qed.
 
+(** ** the AVX2 path (target_feature = "avx2"): [retrieve_cost] / [accumulate_cost] written lane by lane with the
+    semantics of the intrinsics they use -- SIGNED 32-bit comparisons, masked gathers that are undefined behaviour
+    ([None]) when an enabled lane indexes outside its array, wrapping additions (Model/Simd.v).
+    For a scorer whose array lengths and bases are below 2^31 and keys below 2^31 (U31): *)
+(** no enabled lane ever reads outside its array, and every lane holds what the portable code finds *)
+Theorem c07_avx2_lane : forall sc k1 k2, wf sc -> small k1 -> small k2 -> avx2_lane sc k1 k2 = Some (scalar_lane sc k1 k2).
+Proof. exact avx2_lane_correct. Qed.
+(** the eight wrapped lane sums and their horizontal sum return the portable total for rows of 8 lanes *)
+Theorem c07_avx2_accumulate : forall sc rows1 rows2, wf sc -> Forall row8 rows1 -> Forall row8 rows2 ->
+  (-2147483648 <= scalar_rows sc rows1 rows2 < 2147483648)%Z ->
+  avx2_accumulate sc rows1 rows2 = Some (scalar_rows sc rows1 rows2).
+Proof. exact avx2_accumulate_correct. Qed.
+(** on the arrays of a built scorer the portable lane is [retrieve] of the abstract double array, which
+    [c07_scorer_correct] identifies with the trie -- so the AVX2 build returns the same defining sums *)
+Theorem c07_arrays_are_retrieve : forall sc len k1 k2, slots_ok sc len -> small k1 ->
+  s32 (scalar_lane (arr_of sc len) k1 k2) = match retrieve sc k1 k2 with Some c => c | None => 0%Z end.
+Proof. exact scalar_lane_is_retrieve. Qed.
+
+Example c07_avx2_example :
+  let sc := {| as_bases := [0; 5]; as_checks := [0; 4294967295; 0; 4294967295; 1; 4294967295; 1];
+               as_costs := [7; 0; 4294967293; 0; 100; 0; 50] |} in
+  avx2_accumulate sc [[0; 0; 1; 1; 2147483647; 2147483647; 2147483647; 2147483647]] [[0; 2; 1; 3; 0; 2147483647; 0; 0]]
+  = Some 154%Z.
+Proof. vm_compute. reflexivity. Qed.
+
 Check c07_scorer_correct.
 Print Assumptions c07_scorer_correct.
 Print Assumptions c07_trie_wellformed.
 Print Assumptions c07_raw_cost.
 Print Assumptions c07_raw_is_defining_sum.
 Print Assumptions c07_dual_is_defining_sum.
+Print Assumptions c07_avx2_lane.
+Print Assumptions c07_avx2_accumulate.
+Print Assumptions c07_arrays_are_retrieve.
